@@ -1,7 +1,18 @@
 """Per-property configuration: which theorems are the obligations, which runner ties the model to the code."""
-from vcheck import eval_runner
+from vcheck import eval_runner, parse_runner
 
 PROPS = {
+    'C08': dict(
+        level='proof',
+        theorems=['Mp.scan_progress', 'Mp.parse_fuel_sufficient'],
+        runner=parse_runner,
+        assumptions=['text/scanner buffering is not modelled: the model reads the concatenated bytes; chunk independence is checked at run time only'],
+    ),
+    'C09': dict(
+        level='proof',
+        theorems=[],
+        runner=parse_runner,
+    ),
     'C07': dict(
         level='proof',
         theorems=['Mp.eval_never_panics', 'Mp.pureFunc_np'],
